@@ -111,6 +111,19 @@ func (k Keeper) ToggleClient(
 		return sdkerrors.Wrapf(types.ErrInvalidClientType, "cannot toggle client %s, client-type can't be the same", chainName)
 	}
 
+	// consensus states and metadata of the old client type are meaningless to the new type (and make its
+	// iterators fail), so the client store starts empty
+	clientStore := k.ClientStore(ctx, chainName)
+	var oldKeys [][]byte
+	iterator := clientStore.Iterator(nil, nil)
+	for ; iterator.Valid(); iterator.Next() {
+		oldKeys = append(oldKeys, iterator.Key())
+	}
+	iterator.Close()
+	for _, key := range oldKeys {
+		clientStore.Delete(key)
+	}
+
 	k.SetClientState(ctx, chainName, newClientState)
 	if err := newClientState.Initialize(ctx, k.cdc, k.ClientStore(ctx, chainName), newConsensusState); err != nil {
 		return err
